@@ -299,11 +299,15 @@ theorem scanspush_long (i : Int) : ScansPush P (flat (encodeLong i)) := by
   exact ScansPush.of_op (info := ⟨76, "LONG", 0, .line, .push⟩)
     (scans_op _ 76 _ _ rfl ⟨rfl, rfl, Nat.zero_le _⟩ (fun t => skip_line _ hl t)) rfl
 
-theorem scanspush_float (f : F64) (hp : c.proto ≥ 1) : ScansPush P (flat (encodeFloat c f)) := by
-  have hp' : 1 ≤ P := by omega
-  simp only [encodeFloat, hp, if_true, flat_emit]
-  exact ScansPush.of_op (info := ⟨71, "BINFLOAT", 1, .f8, .push⟩)
-    (scans_op _ 71 _ (natBE 8 f.toNat) rfl ⟨rfl, rfl, hp'⟩ (fun t => skip_f8 _ (by simp [natBE, natLE_length]) t)) rfl
+theorem scanspush_float (f : F64) (hf : c.proto ≥ 1 ∨ (10 : UInt8) ∉ F64.fmtG f) : ScansPush P (flat (encodeFloat c f)) := by
+  by_cases hp : c.proto ≥ 1
+  · have hp' : 1 ≤ P := by omega
+    simp only [encodeFloat, hp, if_true, flat_emit]
+    exact ScansPush.of_op (info := ⟨71, "BINFLOAT", 1, .f8, .push⟩)
+      (scans_op _ 71 _ (natBE 8 f.toNat) rfl ⟨rfl, rfl, hp'⟩ (fun t => skip_f8 _ (by simp [natBE, natLE_length]) t)) rfl
+  · simp only [encodeFloat, hp, if_false, flat_emit]
+    exact ScansPush.of_op (info := ⟨70, "FLOAT", 0, .line, .push⟩)
+      (scans_op _ 70 _ (F64.fmtG f ++ [10]) rfl ⟨rfl, rfl, Nat.zero_le _⟩ (fun t => skip_line _ (hf.resolve_left hp) t)) rfl
 
 /-- A counted payload: 1-byte or 4-byte length. -/
 theorem scanspush_counted (short long : UInt8) (is il : OpInfo) (s : Bytes) (useShort : Prop) [Decidable useShort]
@@ -322,23 +326,38 @@ theorem scanspush_counted (short long : UInt8) (is il : OpInfo) (s : Bytes) (use
     exact ScansPush.of_op (info := il)
       (scans_op _ long il _ hll hokl (fun t => by rw [hal]; exact skip_counted4 s hlen t)) hel
 
-theorem scanspush_bytestring (s : Bytes) (hp : c.proto ≥ 1) (hl : s.length < 2 ^ 32) : ScansPush P (flat (encodeByteString ip c s)) := by
-  have hp' : 1 ≤ P := by omega
-  simp only [encodeByteString, hp, if_true]
-  exact scanspush_counted c 85 84 ⟨85, "SHORT_BINSTRING", 1, .counted1, .push⟩ ⟨84, "BINSTRING", 1, .counted4, .push⟩ s _
-    rfl rfl (fun _ => ⟨rfl, rfl, hp'⟩) ⟨rfl, rfl, hp'⟩ rfl rfl rfl rfl id hl
+theorem scanspush_bytestring (hip : ip 10 = false) (s : Bytes) (hl : s.length < 2 ^ 32) : ScansPush P (flat (encodeByteString ip c s)) := by
+  by_cases hp : c.proto ≥ 1
+  · have hp' : 1 ≤ P := by omega
+    simp only [encodeByteString, hp, if_true]
+    exact scanspush_counted c 85 84 ⟨85, "SHORT_BINSTRING", 1, .counted1, .push⟩ ⟨84, "BINSTRING", 1, .counted4, .push⟩ s _
+      rfl rfl (fun _ => ⟨rfl, rfl, hp'⟩) ⟨rfl, rfl, hp'⟩ rfl rfl rfl rfl id hl
+  · simp only [encodeByteString, hp, if_false, flat_emit]
+    exact ScansPush.of_op (info := ⟨83, "STRING", 0, .line, .push⟩)
+      (scans_op _ 83 _ (pyquote ip s ++ [10]) rfl ⟨rfl, rfl, Nat.zero_le _⟩ (fun t => skip_line _ (pyquote_no_lf ip hip s) t)) rfl
 
-theorem scanspush_unicode (s : Bytes) (hp : c.proto ≥ 1) (hl : s.length < 2 ^ 32) : ScansPush P (flat (encodeUnicode c s)) := by
-  have hp' : 1 ≤ P := by omega
-  simp only [encodeUnicode, hp, if_true]
-  exact scanspush_counted c 0x8c 88 ⟨0x8c, "SHORT_BINUNICODE", 4, .counted1, .push⟩ ⟨88, "BINUNICODE", 1, .counted4, .push⟩ s _
-    rfl rfl (fun h => ⟨rfl, rfl, by have := h.2; show 4 ≤ P; omega⟩) ⟨rfl, rfl, hp'⟩ rfl rfl rfl rfl (·.1) hl
+theorem scanspush_unicode (s : Bytes) (hl : s.length < 2 ^ 32) (he : (encodeUnicode c s).err = none) :
+    ScansPush P (flat (encodeUnicode c s)) := by
+  by_cases hp : c.proto ≥ 1
+  · have hp' : 1 ≤ P := by omega
+    simp only [encodeUnicode, hp, if_true]
+    exact scanspush_counted c 0x8c 88 ⟨0x8c, "SHORT_BINUNICODE", 4, .counted1, .push⟩ ⟨88, "BINUNICODE", 1, .counted4, .push⟩ s _
+      rfl rfl (fun h => ⟨rfl, rfl, by have := h.2; show 4 ≤ P; omega⟩) ⟨rfl, rfl, hp'⟩ rfl rfl rfl rfl (·.1) hl
+  · simp only [encodeUnicode, hp, if_false] at he ⊢
+    cases hu : pyencodeRawUnicodeEscape s with
+    | none => rw [hu] at he; simp [failWith] at he
+    | some u =>
+      simp only [flat_emit]
+      exact ScansPush.of_op (info := ⟨86, "UNICODE", 0, .line, .push⟩)
+        (scans_op _ 86 _ (u ++ [10]) rfl ⟨rfl, rfl, Nat.zero_le _⟩ (fun t => skip_line _ (rue_no_lf s u hu) t)) rfl
 
-theorem scanspush_string (s : Bytes) (hp : c.proto ≥ 1) (hl : s.length < 2 ^ 32) : ScansPush P (flat (encodeString ip c s)) := by
-  unfold encodeString
+theorem scanspush_string (hip : ip 10 = false) (s : Bytes) (hl : s.length < 2 ^ 32) (he : (encodeString ip c s).err = none) :
+    ScansPush P (flat (encodeString ip c s)) := by
+  unfold encodeString at he ⊢
   split
-  · exact scanspush_unicode c s hp hl
-  · exact scanspush_bytestring ip c s hp hl
+  · rename_i h; simp only [h, if_true] at he
+    exact scanspush_unicode c s hl he
+  · exact scanspush_bytestring ip c hip s hl
 
 theorem not_mem_of_containsLF {l : Bytes} (h : containsLF l = false) : (10 : UInt8) ∉ l := by
   unfold containsLF at h
@@ -346,17 +365,17 @@ theorem not_mem_of_containsLF {l : Bytes} (h : containsLF l = false) : (10 : UIn
   simp at h
   exact h 10 hm rfl
 
-theorem scanspush_class (m n : Bytes) (hp : c.proto ≥ 1) (hm : m.length < 2 ^ 32) (hn : n.length < 2 ^ 32)
+theorem scanspush_class (hip : ip 10 = false) (m n : Bytes) (hm : m.length < 2 ^ 32) (hn : n.length < 2 ^ 32)
     (he : (encodeClass ip c m n).err = none) : ScansPush P (flat (encodeClass ip c m n)) := by
   unfold encodeClass at he ⊢
   split
   · rename_i h4
     simp only [h4, if_true] at he
     obtain ⟨h12, _⟩ := seq_err_none he
-    obtain ⟨h1, _⟩ := seq_err_none h12
+    obtain ⟨h1, h2⟩ := seq_err_none h12
     rw [flat_seq _ _ h12, flat_seq _ _ h1, flat_emit]
-    exact ScansPush.binary 0x93 ⟨0x93, "STACK_GLOBAL", 4, .none, .binary⟩ (scanspush_string ip c m hp hm)
-      (scanspush_string ip c n hp hn) rfl ⟨rfl, rfl, by show 4 ≤ P; omega⟩ rfl rfl
+    exact ScansPush.binary 0x93 ⟨0x93, "STACK_GLOBAL", 4, .none, .binary⟩ (scanspush_string ip c hip m hm h1)
+      (scanspush_string ip c hip n hn h2) rfl ⟨rfl, rfl, by show 4 ≤ P; omega⟩ rfl rfl
   · rename_i h4
     simp only [h4, if_false] at he
     split
@@ -412,7 +431,8 @@ theorem scanspush_reduce (clsOut argsOut : Out) (h1 : clsOut.err = none) (h2 : a
   rw [flat_seq _ _ h12, flat_seq _ _ h1, flat_emit]
   exact ScansPush.binary 82 ⟨82, "REDUCE", 0, .none, .binary⟩ hc ha rfl ⟨rfl, rfl, Nat.zero_le _⟩ rfl rfl
 
-theorem scanspush_bytes (s : Bytes) (hp : c.proto ≥ 1) (hl : s.length < 2 ^ 31) : ScansPush P (flat (encodeBytes ip c s)) := by
+theorem scanspush_bytes (hip : ip 10 = false) (s : Bytes) (hl : s.length < 2 ^ 31) (he : (encodeBytes ip c s).err = none) :
+    ScansPush P (flat (encodeBytes ip c s)) := by
   by_cases h3 : c.proto ≥ 3
   · simp only [encodeBytes, h3, if_true]
     exact scanspush_counted c 67 66 ⟨67, "SHORT_BINBYTES", 3, .counted1, .push⟩ ⟨66, "BINBYTES", 3, .counted4, .push⟩ s _
@@ -420,23 +440,23 @@ theorem scanspush_bytes (s : Bytes) (hp : c.proto ≥ 1) (hl : s.length < 2 ^ 31
   · have e : encodeBytes ip c s = encodeClass ip c (sb "_codecs") (sb "encode")
         +> encodeTupleOf c 2 (encodeUnicode c (latin1ToUtf8 s) +> encodeByteString ip c (sb "latin1")) +> emit [82] := by
       simp [encodeBytes, h3, latin1ToUtf8]
-    rw [e]
+    rw [e] at he ⊢
+    obtain ⟨h12, _⟩ := seq_err_none he
+    obtain ⟨hce, hte⟩ := seq_err_none h12
+    have hie := encodeTupleOf_err_inv 2 _ (by omega) hte
+    obtain ⟨hue, hbe⟩ := seq_err_none hie
     have hul : (latin1ToUtf8 s).length < 2 ^ 32 := by have := latin1ToUtf8_length_le s; omega
-    have hce := encodeClass_err (c := c) ip (sb "_codecs") (sb "encode") hp (by decide)
-    have hue := encodeUnicode_err (c := c) (latin1ToUtf8 s) hp
-    have hbe := encodeByteString_err (c := c) ip (sb "latin1") hp
-    have hie : (encodeUnicode c (latin1ToUtf8 s) +> encodeByteString ip c (sb "latin1")).err = none := by
-      rw [seq_err hue]; exact hbe
     have hitems : ScansPushN P (flat (encodeUnicode c (latin1ToUtf8 s) +> encodeByteString ip c (sb "latin1"))) 2 := by
       rw [flat_seq _ _ hue]
-      have := ScansPushN.cons (scanspush_unicode c (latin1ToUtf8 s) hp hul)
-        (ScansPushN.cons (scanspush_bytestring ip c (sb "latin1") hp (by decide)) (ScansPushN.zero P))
+      have := ScansPushN.cons (scanspush_unicode c (latin1ToUtf8 s) hul hue)
+        (ScansPushN.cons (scanspush_bytestring ip c hip (sb "latin1") (by decide)) (ScansPushN.zero P))
       simpa using this
-    exact scanspush_reduce c _ _ hce (encodeTupleOf_err 2 _ hie)
-      (scanspush_class ip c _ _ hp (by decide) (by decide) hce)
+    exact scanspush_reduce c _ _ hce hte
+      (scanspush_class ip c hip _ _ (by decide) (by decide) hce)
       (scanspush_tupleOf c 2 _ hie (by omega) hitems)
 
-theorem scanspush_bytearray (s : Bytes) (hp : c.proto ≥ 1) (hl : s.length < 2 ^ 31) : ScansPush P (flat (encodeByteArray ip c s)) := by
+theorem scanspush_bytearray (hip : ip 10 = false) (s : Bytes) (hl : s.length < 2 ^ 31) (he : (encodeByteArray ip c s).err = none) :
+    ScansPush P (flat (encodeByteArray ip c s)) := by
   by_cases h5 : c.proto ≥ 5
   · simp only [encodeByteArray, h5, if_true, flat_emit2]
     have e : (0x96 :: le8 s.length) ++ s = 0x96 :: (natLE 8 s.length ++ s) := by simp [le8]
@@ -446,14 +466,15 @@ theorem scanspush_bytearray (s : Bytes) (hp : c.proto ≥ 1) (hl : s.length < 2 
   · have e : encodeByteArray ip c s = encodeClass ip c (pybuiltinModuleE c.proto) (sb "bytearray")
         +> encodeTupleOf c 1 (encodeBytes ip c s) +> emit [82] := by
       simp [encodeByteArray, h5]
-    rw [e]
-    have hce := encodeClass_err (c := c) ip _ _ hp (pybuiltinModuleE_noLF c.proto)
-    have hbe := encodeBytes_err (c := c) ip s hp
+    rw [e] at he ⊢
+    obtain ⟨h12, _⟩ := seq_err_none he
+    obtain ⟨hce, hte⟩ := seq_err_none h12
+    have hbe := encodeTupleOf_err_inv 1 _ (by omega) hte
     have hitems : ScansPushN P (flat (encodeBytes ip c s)) 1 := by
-      have := ScansPushN.cons (scanspush_bytes ip c s hp hl) (ScansPushN.zero P)
+      have := ScansPushN.cons (scanspush_bytes ip c hip s hl hbe) (ScansPushN.zero P)
       simpa using this
-    exact scanspush_reduce c _ _ hce (encodeTupleOf_err 1 _ hbe)
-      (scanspush_class ip c _ _ hp (pybuiltinModuleE_len _) (by decide) hce)
+    exact scanspush_reduce c _ _ hce hte
+      (scanspush_class ip c hip _ _ (pybuiltinModuleE_len _) (by decide) hce)
       (scanspush_tupleOf c 1 _ hbe (by omega) hitems)
 
 theorem encodeInt_err (i : Int) : (encodeInt c i).err = none := by
@@ -513,25 +534,35 @@ theorem scanspush_container (kEmpty kColl : UInt8) (iE iC : OpInfo) (n : Nat) (l
     have := ScansPush.collect kColl iC hi hlC hokC haC heC
     simpa using this
 
+/-- What the scanner theorem asks of the floats of a value at protocol 0: newline-free `%g` text. -/
+def FloatsLF (c : ECfg) (fs : List F64) : Prop := ∀ f ∈ fs, c.proto ≥ 1 ∨ (10 : UInt8) ∉ F64.fmtG f
+
+theorem FloatsLF.left {c : ECfg} {a b : List F64} (h : FloatsLF c (a ++ b)) : FloatsLF c a :=
+  fun f hf => h f (List.mem_append_left _ hf)
+theorem FloatsLF.right {c : ECfg} {a b : List F64} (h : FloatsLF c (a ++ b)) : FloatsLF c b :=
+  fun f hf => h f (List.mem_append_right _ hf)
+
 mutual
-theorem scans_val (hp : c.proto ≥ 1) : (v : GoVal) → sizesOK v = true → (enc ip c v).err = none →
-    ScansPush P (flat (enc ip c v))
-  | .none, _, _ | .nil, _, _ => by simpa [enc] using scanspush_none c
-  | .bool b, _, _ => by simpa [enc] using scanspush_bool c b
-  | .int i, _, _ => by simpa [enc] using scanspush_int c i
-  | .uint u, _, _ => by simpa [enc] using scanspush_uint c u
-  | .big _ i, _, _ => by simpa [enc] using scanspush_long c i
-  | .float f, _, _ => by simpa [enc] using scanspush_float c f hp
-  | .complex _ _, _, he => by simp [enc, failWith] at he
-  | .str s, hs, _ => by simpa [enc] using scanspush_string ip c s hp (by simpa [sizesOK] using hs)
-  | .bytestr s, hs, _ => by simpa [enc] using scanspush_bytestring ip c s hp (by simpa [sizesOK] using hs)
-  | .bytes s, hs, _ => by simpa [enc] using scanspush_bytes ip c s hp (by simpa [sizesOK] using hs)
-  | .bytearray s, hs, _ => by simpa [enc] using scanspush_bytearray ip c s hp (by simpa [sizesOK] using hs)
-  | .cls m n, hs, he => by
+theorem scans_val (hip : ip 10 = false) (hp0 : 0 ≤ c.proto) : (v : GoVal) → sizesOK v = true → FloatsLF c (floatsOf v) →
+    (enc ip c v).err = none → ScansPush P (flat (enc ip c v))
+  | .none, _, _, _ | .nil, _, _, _ => by simpa [enc] using scanspush_none c
+  | .bool b, _, _, _ => by simpa [enc] using scanspush_bool c b
+  | .int i, _, _, _ => by simpa [enc] using scanspush_int c i
+  | .uint u, _, _, _ => by simpa [enc] using scanspush_uint c u
+  | .big _ i, _, _, _ => by simpa [enc] using scanspush_long c i
+  | .float f, _, hf, _ => by simpa [enc] using scanspush_float c f (hf f (by simp [floatsOf]))
+  | .complex _ _, _, _, he => by simp [enc, failWith] at he
+  | .str s, hs, _, he => by simpa [enc] using scanspush_string ip c hip s (by simpa [sizesOK] using hs) (by simpa [enc] using he)
+  | .bytestr s, hs, _, _ => by simpa [enc] using scanspush_bytestring ip c hip s (by simpa [sizesOK] using hs)
+  | .bytes s, hs, _, he => by simpa [enc] using scanspush_bytes ip c hip s (by simpa [sizesOK] using hs) (by simpa [enc] using he)
+  | .bytearray s, hs, _, he => by
+    simpa [enc] using scanspush_bytearray ip c hip s (by simpa [sizesOK] using hs) (by simpa [enc] using he)
+  | .cls m n, hs, _, he => by
     simp only [sizesOK, Bool.and_eq_true, decide_eq_true_eq] at hs
-    simpa [enc] using scanspush_class ip c m n hp hs.1 hs.2 (by simpa [enc] using he)
-  | .list xs, hs, he => by
+    simpa [enc] using scanspush_class ip c hip m n hs.1 hs.2 (by simpa [enc] using he)
+  | .list xs, hs, hf, he => by
     simp only [sizesOK] at hs
+    simp only [floatsOf] at hf
     simp only [enc] at he ⊢
     have hie : (encList ip c xs).err = none := by
       by_cases h : c.proto ≥ 1 ∧ xs.length = 0
@@ -539,14 +570,16 @@ theorem scans_val (hp : c.proto ≥ 1) : (v : GoVal) → sizesOK v = true → (e
       · simp only [h, if_false] at he
         exact (seq_err_none (seq_err_none he).1).2
     exact scanspush_container c 93 108 ⟨93, "EMPTY_LIST", 1, .none, .push⟩ ⟨108, "LIST", 0, .none, .collect⟩ xs.length xs.length _ hie
-      rfl rfl (fun h => ⟨rfl, rfl, by show 1 ≤ P; omega⟩) ⟨rfl, rfl, Nat.zero_le _⟩ rfl rfl rfl rfl (scans_list hp xs hs hie)
-  | .tuple xs, hs, he => by
+      rfl rfl (fun h => ⟨rfl, rfl, by show 1 ≤ P; omega⟩) ⟨rfl, rfl, Nat.zero_le _⟩ rfl rfl rfl rfl (scans_list hip hp0 xs hs hf hie)
+  | .tuple xs, hs, hf, he => by
     simp only [sizesOK] at hs
+    simp only [floatsOf] at hf
     simp only [enc] at he ⊢
     have hie := encList_err_of_tuple ip c he
-    exact scanspush_tupleOf c xs.length _ hie (flat_encList_nil ip c) (scans_list hp xs hs hie)
-  | .map kvs, hs, he => by
+    exact scanspush_tupleOf c xs.length _ hie (flat_encList_nil ip c) (scans_list hip hp0 xs hs hf hie)
+  | .map kvs, hs, hf, he => by
     simp only [sizesOK] at hs
+    simp only [floatsOf] at hf
     simp only [enc] at he ⊢
     have hie : (encPairs ip c kvs).err = none := by
       by_cases h : c.proto ≥ 1 ∧ kvs.length = 0
@@ -554,9 +587,10 @@ theorem scans_val (hp : c.proto ≥ 1) : (v : GoVal) → sizesOK v = true → (e
       · simp only [h, if_false] at he
         exact (seq_err_none (seq_err_none he).1).2
     exact scanspush_container c 125 100 ⟨125, "EMPTY_DICT", 1, .none, .push⟩ ⟨100, "DICT", 0, .none, .collect⟩ _ kvs.length _ hie
-      rfl rfl (fun h => ⟨rfl, rfl, by show 1 ≤ P; omega⟩) ⟨rfl, rfl, Nat.zero_le _⟩ rfl rfl rfl rfl (scans_pairs hp kvs hs hie)
-  | .dict kvs, hs, he => by
+      rfl rfl (fun h => ⟨rfl, rfl, by show 1 ≤ P; omega⟩) ⟨rfl, rfl, Nat.zero_le _⟩ rfl rfl rfl rfl (scans_pairs hip hp0 kvs hs hf hie)
+  | .dict kvs, hs, hf, he => by
     simp only [sizesOK] at hs
+    simp only [floatsOf] at hf
     simp only [enc] at he ⊢
     have hie : (encPairs ip c kvs).err = none := by
       by_cases h : c.proto ≥ 1 ∧ kvs.length = 0
@@ -564,61 +598,77 @@ theorem scans_val (hp : c.proto ≥ 1) : (v : GoVal) → sizesOK v = true → (e
       · simp only [h, if_false] at he
         exact (seq_err_none (seq_err_none he).1).2
     exact scanspush_container c 125 100 ⟨125, "EMPTY_DICT", 1, .none, .push⟩ ⟨100, "DICT", 0, .none, .collect⟩ _ kvs.length _ hie
-      rfl rfl (fun h => ⟨rfl, rfl, by show 1 ≤ P; omega⟩) ⟨rfl, rfl, Nat.zero_le _⟩ rfl rfl rfl rfl (scans_pairs hp kvs hs hie)
-  | .call m n args, hs, he => by
+      rfl rfl (fun h => ⟨rfl, rfl, by show 1 ≤ P; omega⟩) ⟨rfl, rfl, Nat.zero_le _⟩ rfl rfl rfl rfl (scans_pairs hip hp0 kvs hs hf hie)
+  | .call m n args, hs, hf, he => by
     simp only [sizesOK, Bool.and_eq_true, decide_eq_true_eq] at hs
+    simp only [floatsOf] at hf
     simp only [enc] at he ⊢
     obtain ⟨h12, _⟩ := seq_err_none he
     obtain ⟨h1, h2⟩ := seq_err_none h12
     have hie := encList_err_of_tuple ip c h2
-    exact scanspush_reduce c _ _ h1 h2 (scanspush_class ip c m n hp hs.1.1 hs.1.2 h1)
-      (scanspush_tupleOf c args.length _ hie (flat_encList_nil ip c) (scans_list hp args hs.2 hie))
-  | .ref pid, hs, he => by
+    exact scanspush_reduce c _ _ h1 h2 (scanspush_class ip c hip m n hs.1.1 hs.1.2 h1)
+      (scanspush_tupleOf c args.length _ hie (flat_encList_nil ip c) (scans_list hip hp0 args hs.2 hf hie))
+  | .ref pid, hs, hf, he => by
     simp only [sizesOK] at hs
+    simp only [floatsOf] at hf
     simp only [enc] at he ⊢
-    have h0 : ¬ c.proto = 0 := by omega
-    simp only [h0, if_false] at he ⊢
-    obtain ⟨h1, _⟩ := seq_err_none he
-    rw [flat_seq _ _ h1, flat_emit]
-    exact ScansPush.unary 81 ⟨81, "BINPERSID", 1, .none, .unary⟩ (scans_val hp pid hs h1) rfl ⟨rfl, rfl, by show 1 ≤ P; omega⟩ rfl rfl
-  | .user n, _, _ => by
-    simp only [enc]
-    have hse := encodeString_err (c := c) ip (sb "N") hp
-    have h1 : (emit [40] +> encodeString ip c (sb "N")).err = none := by rw [seq_err rfl]; exact hse
-    have hint : (encodeInt c n).err = none := (encodeInt_err c n)
-    have h2 : (emit [40] +> encodeString ip c (sb "N") +> encodeInt c n).err = none := by rw [seq_err h1]; exact hint
-    rw [flat_seq _ _ h2, flat_seq _ _ h1, flat_seq _ _ rfl, flat_emit, flat_emit]
+    by_cases h0 : c.proto = 0
+    · simp only [h0, if_true] at he ⊢
+      cases pid with
+      | str s =>
+        simp only at he ⊢
+        by_cases hlf : containsLF s = true
+        · simp [hlf, failWith] at he
+        · have hlf' : containsLF s = false := by simpa using hlf
+          simp only [hlf', Bool.false_eq_true, if_false, flat_emit]
+          exact ScansPush.of_op (info := ⟨80, "PERSID", 0, .line, .push⟩)
+            (scans_op _ 80 _ (s ++ [10]) rfl ⟨rfl, rfl, Nat.zero_le _⟩ (fun t => skip_line _ (not_mem_of_containsLF hlf') t)) rfl
+      | _ => simp [failWith] at he
+    · simp only [h0, if_false] at he ⊢
+      obtain ⟨h1, _⟩ := seq_err_none he
+      rw [flat_seq _ _ h1, flat_emit]
+      exact ScansPush.unary 81 ⟨81, "BINPERSID", 1, .none, .unary⟩ (scans_val hip hp0 pid hs hf h1) rfl
+        ⟨rfl, rfl, by show 1 ≤ P; omega⟩ rfl rfl
+  | .user n, _, _, he => by
+    simp only [enc] at he ⊢
+    obtain ⟨h123, _⟩ := seq_err_none he
+    obtain ⟨h12, _⟩ := seq_err_none h123
+    obtain ⟨_, hse⟩ := seq_err_none h12
+    rw [flat_seq _ _ h123, flat_seq _ _ h12, flat_seq _ _ rfl, flat_emit, flat_emit]
     have hitems : ScansPushN P (flat (encodeString ip c (sb "N")) ++ flat (encodeInt c n)) 2 := by
-      have := ScansPushN.cons (scanspush_string ip c (sb "N") hp (by decide))
+      have := ScansPushN.cons (scanspush_string ip c hip (sb "N") (by decide) hse)
         (ScansPushN.cons (scanspush_int c n) (ScansPushN.zero P))
       simpa using this
     have := ScansPush.collect 100 ⟨100, "DICT", 0, .none, .collect⟩ hitems rfl ⟨rfl, rfl, Nat.zero_le _⟩ rfl rfl
     simpa using this
-  | .mark, _, _ => by
+  | .mark, _, _, _ => by
     simp only [enc]
     rw [flat_seq _ _ rfl, flat_emit, flat_emit]
     have := ScansPush.collect 100 ⟨100, "DICT", 0, .none, .collect⟩ (ScansPushN.zero P) rfl ⟨rfl, rfl, Nat.zero_le _⟩ rfl rfl
     simpa using this
-  | .href _, _, he | .cycle, _, he => by simp [enc, failWith] at he
-theorem scans_list (hp : c.proto ≥ 1) : (xs : List GoVal) → sizesOKList xs = true → (encList ip c xs).err = none →
-    ScansPushN P (flat (encList ip c xs)) xs.length
-  | [], _, _ => by simpa [encList, flat, Out.nil] using ScansPushN.zero P
-  | x :: xs, hs, he => by
+  | .href _, _, _, he | .cycle, _, _, he => by simp [enc, failWith] at he
+theorem scans_list (hip : ip 10 = false) (hp0 : 0 ≤ c.proto) : (xs : List GoVal) → sizesOKList xs = true → FloatsLF c (floatsOfList xs) →
+    (encList ip c xs).err = none → ScansPushN P (flat (encList ip c xs)) xs.length
+  | [], _, _, _ => by simpa [encList, flat, Out.nil] using ScansPushN.zero P
+  | x :: xs, hs, hf, he => by
     simp only [sizesOKList, Bool.and_eq_true] at hs
+    simp only [floatsOfList] at hf
     simp only [encList] at he ⊢
     obtain ⟨h1, h2⟩ := seq_err_none he
     rw [flat_seq _ _ h1]
-    exact ScansPushN.cons (scans_val hp x hs.1 h1) (scans_list hp xs hs.2 h2)
-theorem scans_pairs (hp : c.proto ≥ 1) : (kvs : List (GoVal × GoVal)) → sizesOKPairs kvs = true → (encPairs ip c kvs).err = none →
-    ScansPushN P (flat (encPairs ip c kvs)) (2 * kvs.length)
-  | [], _, _ => by simpa [encPairs, flat, Out.nil] using ScansPushN.zero P
-  | (k, v) :: kvs, hs, he => by
+    exact ScansPushN.cons (scans_val hip hp0 x hs.1 hf.left h1) (scans_list hip hp0 xs hs.2 hf.right h2)
+theorem scans_pairs (hip : ip 10 = false) (hp0 : 0 ≤ c.proto) : (kvs : List (GoVal × GoVal)) → sizesOKPairs kvs = true →
+    FloatsLF c (floatsOfPairs kvs) → (encPairs ip c kvs).err = none → ScansPushN P (flat (encPairs ip c kvs)) (2 * kvs.length)
+  | [], _, _, _ => by simpa [encPairs, flat, Out.nil] using ScansPushN.zero P
+  | (k, v) :: kvs, hs, hf, he => by
     simp only [sizesOKPairs, Bool.and_eq_true] at hs
+    simp only [floatsOfPairs] at hf
     simp only [encPairs] at he ⊢
     obtain ⟨h12, h3⟩ := seq_err_none he
     obtain ⟨h1, h2⟩ := seq_err_none h12
     rw [flat_seq _ _ h12, flat_seq _ _ h1]
-    have := ScansPushN.cons (scans_val hp k hs.1.1 h1) (ScansPushN.cons (scans_val hp v hs.1.2 h2) (scans_pairs hp kvs hs.2 h3))
+    have := ScansPushN.cons (scans_val hip hp0 k hs.1.1 hf.left.left h1)
+      (ScansPushN.cons (scans_val hip hp0 v hs.1.2 hf.left.right h2) (scans_pairs hip hp0 kvs hs.2 hf.right h3))
     have e : 2 * (kvs.length + 1) = 2 * kvs.length + 1 + 1 := by omega
     simpa [e, List.append_assoc] using this
 end
